@@ -361,6 +361,36 @@ func runC05(env *lib.Env, rep *lib.Report) {
 			rep.AddFailure(x.Fail)
 		}
 	}
+	// (9) two tables with the same column names at different positions, queried alternately: nothing learnt about
+	// one statement's table may leak into the next statement
+	if env.Shard == 3%env.NShards {
+		rowsT := [][]any{{int64(1), int64(10), "x", true}, {int64(2), int64(20), "y", false}, {int64(2), int64(5), "x", true}}
+		rowsR := [][]any{{false, "y", int64(7), int64(2)}, {true, "x", int64(1), int64(1)}, {true, "z", int64(30), int64(2)}}
+		revCols := []mCol{{"d", "boolean"}, {"c", "varchar"}, {"b", "bigint"}, {"a", "int"}}
+		x := lib.RunOnce(func(c *lib.Ctx) {
+			qw := newQWorld(c, []*qTable{{name: "t", cols: c05Cols, rows: rowsT}, {name: "r", cols: revCols, rows: rowsR}})
+			defer qw.w.destroy()
+			fromR := []qJoin{{table: "r"}}
+			warm := []*qQuery{
+				{items: star, from: from, where: qs.conds[0], limit: -1, offset: -1},
+				{items: star, from: from, where: qs.conds[len(qs.conds)/2], orderBy: []qSort{{qRef{"", "b"}, "DESC"}}, limit: -1, offset: -1},
+				{items: star, from: from, orderBy: []qSort{{qRef{"", "c"}, ""}}, limit: 1, offset: -1},
+			}
+			for wi, wq := range warm {
+				for _, l := range qs.lists {
+					r.check(qw, wq, "alternating-tables", "")
+					r.check(qw, &qQuery{items: l, from: fromR, limit: -1, offset: -1}, "alternating-tables", "")
+					if wi == 0 {
+						r.check(qw, &qQuery{items: l, from: fromR, orderBy: []qSort{{qRef{"", "a"}, ""}, {qRef{"", "b"}, "DESC"}}, limit: 2, offset: -1}, "alternating-tables", "")
+					}
+				}
+			}
+		}, nil)
+		if x.Fail != nil {
+			rep.AddFailure(x.Fail)
+		}
+	}
+	rep.Bounds["alternating tables"] = "t(a,b,c,d) and r(d,c,b,a): a WHERE / ORDER BY query on t, then every select list without WHERE on r, alternately"
 	// (8) BIGINT values next to each other where float64 no longer tells them apart (2^53 and the top of the
 	// range), compared with literals of the same neighbourhood in every operator and operand order, and sorted
 	if env.Shard == 1%env.NShards {
